@@ -43,3 +43,7 @@
 ; last one returned
 ; ghost filterCalls Int
 ; ghost lastVerdict Bool
+; msgKind[a]: which reader made the last successful scalar read through the protoscan base at address a
+; (1 int32, 2 int64, 3 uint32, 4 bool, 5 sint32, 6 sint64): the wire interpretation osmformat.proto
+; prescribes per field is checked against it
+; ghost msgKind (Array Int Int)
